@@ -94,7 +94,8 @@ T = {
 _SIMEXEC = (" Probes active in its simulation / executor cases (DESIGN 12.15-12.17): configuration corners (odd tick rates, "
             "fractional, tiny and huge pools, up to 33 pools, wide and deep DAGs, seed 0), a second live simulation in the same "
             "process next to a quarter of the simulation cases, result lists kept and re-read, state serialised between ticks, "
-            "Segment objects shared across runs; sizes that latent faults need (thousands of exits / completions / pipelines, "
+            "Segment objects shared across runs, every fourth worker process with the package's default DEBUG logging, optional "
+            "Assignment arguments (is_resume, container_id, force_run) in decisions; sizes that latent faults need (thousands of exits / completions / pipelines, "
             "long scripts) are REQUIRE counters, so a run that did not reach them is INCONCLUSIVE.")
 PROBES = {pid: _SIMEXEC for pid in ("C01", "C02", "C03", "C04", "C05", "C06", "C07", "C08", "C09", "C10", "C11", "C12", "C16", "C17", "C18")}
 PROBES["C13"] = " The consumer keeps and extends the arrival lists it is handed (no list may come back)."
@@ -136,7 +137,7 @@ def main():
                      "kind_free_text": "runtime monitoring harness: generated workloads drive the real code; monitors compare observations with independent reference models"}],
         "checks": checks,
         "not_applicable": na,
-        "notes": "All checks: exit 0 held / 1 VIOLATION / 2 INCONCLUSIVE. Honour VERIF_SEED, VERIF_TIER, VERIF_REPO. known_findings.json lists open findings (printed as KNOWN-FINDING) and fixed ones. Self-validation material: selftest/ (71 hand-made mutants), seeded/ (140 property-breaking changes by independent sub-agents in seven flavours a-g), benign/ (100 property-preserving changes p-t); DESIGN.md section 12 records first-contact results and every strengthening.",
+        "notes": "All checks: exit 0 held / 1 VIOLATION / 2 INCONCLUSIVE. Honour VERIF_SEED, VERIF_TIER, VERIF_REPO. known_findings.json lists open findings (printed as KNOWN-FINDING) and fixed ones. Self-validation material: selftest/ (71 hand-made mutants), seeded/ (160 property-breaking changes by independent sub-agents in eight flavours a-h), benign/ (120 property-preserving changes p-u); DESIGN.md section 12 records first-contact results and every strengthening.",
     }
     with open(os.path.join(HERE, "MANIFEST.json"), "w") as f:
         json.dump(m, f, indent=1)
